@@ -120,7 +120,11 @@ func (c C04Checker) Check(s *Step) []*Violation {
 		mode = "multi"
 	}
 	ctx := fmt.Sprintf("%s:%s%s", opKinds(s.Op), mode, sw)
+	applied := s.Out.DevCalls > 0 || (s.Post != nil && s.Pre.IntendedKey() != s.Post.IntendedKey())
 	switch {
+	case !s.Accepted && applied && !valid:
+		vs = append(vs, &Violation{Clause: "invalid-applied-despite-errors", Sig: "invalid-applied-despite-errors:" + classKey(classes) + ":" + ctx,
+			Detail: fmt.Sprintf("the response reports errors (%v) but the change was applied (device calls=%d); the resulting configuration violates %v; resulting=%v", intentErrors(s.Out), s.Out.DevCalls, classKey(classes), cfg)})
 	case s.Accepted && !valid:
 		vs = append(vs, &Violation{Clause: "invalid-accepted", Sig: "invalid-accepted:" + classKey(classes) + ":" + ctx,
 			Detail: fmt.Sprintf("applied, but the resulting configuration violates %v: %v; resulting=%v", classKey(classes), RefValidate(cfg), cfg)})
